@@ -28,7 +28,7 @@ func VerifC12EncodeTime() {
 	ref, err := (&gogotypes.Timestamp{Seconds: secs, Nanos: int32(nanos)}).Marshal()
 	vs.Assert("reference-marshal-ok", err == nil)
 	vs.Assert("encode-time-is-protobuf-timestamp", bytes.Equal(got, ref))
-	vs.Assert("fits-single-length-byte", len(got) <= 16)
+	vs.Assert("fits-single-length-byte", len(got) <= 17) // 1+10 (negative seconds) + 1+5
 	vs.Reach("encoded", true)
 	vs.Reach("negative-seconds", secs < 0)
 	vs.Reach("zero-seconds", secs == 0)
